@@ -1,7 +1,9 @@
 """Evaluate the Gallina model on generated cases inside Coq (vm_compute) and report mismatches."""
+import fcntl
 import os
 import re
 import subprocess
+import time
 from concurrent.futures import ThreadPoolExecutor
 
 COQ_ROOT = os.path.join(os.environ.get('VERIF_ROOT', '/verif'), 'coq')
@@ -19,16 +21,52 @@ Eval vm_compute in (List.length cases, mismatches {run} cases).
 RESULT_RE = re.compile(r'=\s*\(\s*(\d+)%nat\s*,\s*(\[[^\]]*\]|nil)\s*\)', re.S)
 
 
+SLOT_DIR = '/tmp/pv_coqc_slots'
+N_SLOTS = int(os.environ.get('VERIF_COQC_SLOTS', '20'))
+
+
+class _Slot:
+    """System-wide limit on concurrently running coqc shard evaluations (several checks may run at once;
+    each coqc takes ~0.5 GB): one of N_SLOTS lock files is held while a shard runs."""
+
+    def __enter__(self):
+        os.makedirs(SLOT_DIR, exist_ok=True)
+        while True:
+            for k in range(N_SLOTS):
+                f = open(os.path.join(SLOT_DIR, f'slot_{k}'), 'w')
+                try:
+                    fcntl.flock(f, fcntl.LOCK_EX | fcntl.LOCK_NB)
+                    self.f = f
+                    return self
+                except OSError:
+                    f.close()
+            time.sleep(0.25)
+
+    def __exit__(self, *a):
+        fcntl.flock(self.f, fcntl.LOCK_UN)
+        self.f.close()
+
+
 def _one(args):
+    """Compile one generated file; a run killed from outside (out of memory, signal) is retried, alone."""
     path, timeout = args
-    try:
-        p = subprocess.run(
-            ['coqc', '-Q', COQ_ROOT, 'PV', os.path.basename(path)],
-            cwd=os.path.dirname(path), stdout=subprocess.PIPE, stderr=subprocess.STDOUT,
-            text=True, timeout=timeout)
-        return path, p.returncode, p.stdout
-    except subprocess.TimeoutExpired:
-        return path, 124, 'timeout'
+    out, rc = '', 1
+    for attempt in range(3):
+        try:
+            with _Slot():
+                p = subprocess.run(
+                    ['coqc', '-Q', COQ_ROOT, 'PV', os.path.basename(path)],
+                    cwd=os.path.dirname(path), stdout=subprocess.PIPE, stderr=subprocess.STDOUT,
+                    text=True, timeout=timeout)
+            rc, out = p.returncode, p.stdout
+        except subprocess.TimeoutExpired:
+            return path, 124, 'timeout'
+        killed = rc < 0 or rc in (137, 139) or (rc != 0 and not out.strip()) or 'Out of memory' in out \
+            or 'Stack overflow' in out
+        if not killed:
+            break
+        time.sleep(2 + 5 * attempt)
+    return path, rc, out
 
 
 def run_cases(workdir, module, pairs, run='run', shard_size=250, jobs=16, timeout=900, prefix='cases'):
